@@ -18,7 +18,8 @@ RULE = (
     'combination, as one str, as every one of the 2^(n-1) chunk lists, as single characters interleaved with empty chunks '
     '(generator), as ("", text, "") and as an io.StringIO line iterator; plus Keyvalues.parse of the same text. '
     'random: Hypothesis texts (<= 400 chars) built from syntax pieces, random option mask, random cut set with extra cuts '
-    'drawn from the positions inside CR-LF, backslash escapes, //, /*, */, ** and before a bare-word terminator. '
+    'drawn from the positions inside CR-LF, backslash escapes, //, /*, */, ** and before a bare-word terminator, each '
+    'chunking also with zero-length chunks at every cut point. '
     'kvparse / kvenum: Keyvalues.parse over generated / exhaustively enumerated KeyValues token sequences (flags, '
     'blocks, parse options) delivered as str, chunks, lines, file and as a ready Tokenizer. '
     'non-trivial = the single-string run yields a real token or an error AND a cut falls inside a multi-character '
@@ -371,6 +372,14 @@ def chosen_cuts(desc, text, hots):
     return chunks, with_empties, hot_used
 
 
+def spaced(chunks):
+    """The same chunks with a zero-length chunk at EVERY cut point (two at every third)."""
+    res = ['']
+    for i, c in enumerate(chunks):
+        res += [c, ''] if i % 3 else [c, '', '']
+    return res
+
+
 def reentrant_chunks(chunks):
     """Yield the chunks, but run other tokenizers / parsers to completion before each one."""
     from srctools.keyvalues import Keyvalues
@@ -412,6 +421,10 @@ def execute_random(desc, ctx):
         ('generator+empties', iter(with_empties), with_empties),
         ('chars', list(text), '<every character its own chunk>'),
         ('every-construct-cut', all_hot, all_hot),
+        # zero-length chunks exactly at the cut points: inside every construct / at the drawn cuts / between all characters
+        ('every-construct-cut+empty-chunks', spaced(all_hot), spaced(all_hot)),
+        ('list+empty-chunk-at-every-cut', iter(spaced(chunks)), spaced(chunks)),
+        ('chars+empty-chunks', spaced(list(text)), '<every character its own chunk, empty chunks between>'),
         ('lines', text.splitlines(keepends=True), '<splitlines(keepends=True)>'),
         ('StringIO', io.StringIO(text), '<io.StringIO>'),
         # a file-like source that itself tokenizes something else before handing out each piece (an include resolver,
@@ -549,6 +562,8 @@ def execute_kvparse(desc, ctx):
         ('list', lambda: chunks),
         ('generator+empties', lambda: iter(with_empties)),
         ('chars', lambda: list(text)),
+        ('chars+empty-chunks', lambda: spaced(list(text))),
+        ('list+empty-chunk-at-every-cut', lambda: spaced(chunks)),
         ('lines', lambda: text.splitlines(keepends=True)),
         ('StringIO', lambda: io.StringIO(text)),
         # "file_contents may be an already created tokenizer" - here the counting one, which adds the step bound
